@@ -27,6 +27,9 @@ type c16Case struct {
 	// InPlace: the clone's target is the free part of the original's own backing array, starting exactly at the original's
 	// write position (the zero-copy idiom a.Clone(buf[a.Len():])); it may reach beyond the original's window
 	InPlace bool `json:"in_place,omitempty"`
+	// Nested: the tail goes into a clone of the clone; it is appended to the (otherwise unused) first clone, which is
+	// then appended to the original
+	Nested bool `json:"nested,omitempty"`
 }
 
 type emObs struct {
@@ -137,10 +140,19 @@ func c16Check(c c16Case) error {
 		sib = a.Clone(make([]byte, needOf(tail)+17))
 		sib.NOP()
 	}
+	inner := cl
+	if c.Nested && !inPlace {
+		inner = cl.Clone(make([]byte, needOf(tail)+16))
+	}
 	for _, o := range tail {
-		asmcat.ApplyReal(cl, o)
+		asmcat.ApplyReal(inner, o)
 		if sib != nil {
 			asmcat.ApplyReal(sib, o)
+		}
+	}
+	if inner != cl {
+		if pe := rig.Safe(func() error { cl.Append(inner); return nil }); pe != nil {
+			return fmt.Errorf("Append of a clone's clone to the clone failed although it fits: %v", pe)
 		}
 	}
 	// the clone is also listed and finalised: nothing done to it may show in the original
@@ -347,6 +359,10 @@ func TestC16(t *testing.T) {
 				if rapid.Bool().Draw(t, "with-coda") {
 					c.Coda = []asmcat.Op{{Kind: "comment", Text: "after append"}, {Kind: "ins", Method: "NOP"}, {Kind: "label", Label: "lbl"}, {Kind: "ins", Method: "BRA", Label: labelPoolName(rapid.IntRange(0, 7).Draw(t, "coda-label"))}}
 					c.Coda = c.Coda[:rapid.IntRange(1, 4).Draw(t, "coda-len")]
+				}
+				if rapid.IntRange(0, 3).Draw(t, "nested") == 0 {
+					c.Nested = true
+					ev.Class("tail-emitted-into-a-clone-of-the-clone")
 				}
 				if rapid.IntRange(0, 3).Draw(t, "in-place") == 0 {
 					c.InPlace = true
